@@ -324,8 +324,44 @@ func (p *Program) resolveFuncValue(v ssa.Value, d int, seen map[ssa.Value]bool) 
 		}
 	case *ssa.ChangeType:
 		add(p.resolveFuncValue(x.X, d+1, seen)...)
+	case *ssa.Call:
+		// a function-returning call: what the callee(s) return
+		for _, g := range p.CalleesOf(x) {
+			if !isModuleFunc(g) {
+				continue
+			}
+			for _, b := range g.Blocks {
+				for _, in := range b.Instrs {
+					if rt, ok := in.(*ssa.Return); ok && len(rt.Results) > 0 {
+						add(p.resolveFuncValue(RetVal(rt, 0), d+1, seen)...)
+					}
+				}
+			}
+		}
+	case *ssa.Extract:
+		if c, ok := x.Tuple.(*ssa.Call); ok {
+			for _, g := range p.CalleesOf(c) {
+				if !isModuleFunc(g) {
+					continue
+				}
+				for _, b := range g.Blocks {
+					for _, in := range b.Instrs {
+						if rt, ok := in.(*ssa.Return); ok && x.Index < len(rt.Results) {
+							add(p.resolveFuncValue(RetVal(rt, x.Index), d+1, seen)...)
+						}
+					}
+				}
+			}
+		}
 	case *ssa.UnOp:
 		switch a := x.X.(type) {
+		case *ssa.FieldAddr:
+			// a function stored in a struct field: every store to that field in the module (field-based)
+			if id := fieldID(a); id != "" {
+				for _, st := range p.fieldStoresByID(id) {
+					add(p.resolveFuncValue(st.Val, d+1, seen)...)
+				}
+			}
 		case *ssa.Alloc:
 			fromCell(a)
 		case *ssa.FreeVar:
@@ -353,4 +389,26 @@ func (p *Program) resolveFuncValue(v ssa.Value, d int, seen map[ssa.Value]bool) 
 		}
 	}
 	return out
+}
+
+// fieldStoresByID: all stores in the module into the struct field with the given
+// id (pkg.Type.field), whatever the base object (field-based abstraction).
+func (p *Program) fieldStoresByID(id string) []*ssa.Store {
+	if p.fieldStores == nil {
+		p.fieldStores = map[string][]*ssa.Store{}
+		for _, f := range p.ModFuncs {
+			for _, b := range f.Blocks {
+				for _, in := range b.Instrs {
+					if st, ok := in.(*ssa.Store); ok {
+						if fa, ok := st.Addr.(*ssa.FieldAddr); ok {
+							if k := fieldID(fa); k != "" {
+								p.fieldStores[k] = append(p.fieldStores[k], st)
+							}
+						}
+					}
+				}
+			}
+		}
+	}
+	return p.fieldStores[id]
 }
